@@ -2,9 +2,10 @@
 import os, json
 from vlib.core import Ctx, hexs, unhex, ddmin
 from props import kv_shared as K
+from props.c12 import check_stats
 
 ID = "C11"
-MODULES = ["IoraModel.Props.C11"]
+MODULES = ["IoraModel.Props.C11", "IoraModel.Props.C11Json"]
 OBLIGATIONS = [
     {"id": "C11_gen_limits", "theorem": "Iora.C11.gen_limits_ok", "kind": "proved",
      "statement": "Gen obligation: load() re-admits every key, value and record the API admits (totalLen ceiling covers the largest record writeLogEntry can produce)"},
@@ -28,6 +29,10 @@ OBLIGATIONS = [
      "statement": "JSON file store: at every crash point of a flush (any op prefix, any byte cut) the store file is untouched or the complete new text (depends on Gen: saveToFile goes through temp + rename)"},
     {"id": "C11_J1_last", "theorem": "Iora.C11.J1_last_flush", "kind": "proved",
      "statement": "after any sequence of completed flushes the file holds the last one"},
+    {"id": "C11_J1_reparse", "theorem": "Iora.C11.J1_reparse", "kind": "proved",
+     "statement": "J1 composed with C13-J2: at every crash point of a flush of serialize(v) the store file is untouched or parses to exactly v (the constructor's parse-error fall-back to an empty store cannot fire on a file this code wrote)"},
+    {"id": "C11_J1_last_reparse", "theorem": "Iora.C11.J1_last_reparse", "kind": "proved",
+     "statement": "after any sequence of completed flushes the file parses to the last flushed document"},
     {"id": "C11_J1_inplace", "theorem": "Iora.C11.J1_in_place_refuted", "kind": "proved",
      "statement": "the in-place truncating rewrite does not have J1 (witness: crash after the truncating open)"},
 ]
@@ -228,7 +233,7 @@ def replay(ctx):
             out, rc, err = ctx.run_lines([hb], ops, timeout=600, env=env)
             for o, a in zip(ops, out):
                 print("op    %s\n impl  %s" % (o[:200], a[:200]))
-            still = obj.get("expected") is not None and (len(out) < 7 or out[6] != obj["expected"])
+            still = obj.get("expected") is not None and any(len(out) <= i or out[i] != obj["expected"] for i in (5, 7, 10))
         else:
             (c, impl, model), = ctx.lockstep("kv", hb, [{"cat": "replay", "ops": ops}], impl_env=env)
             for o, a, b in zip(ops, impl, model):
@@ -342,10 +347,10 @@ def run_kv(ctx, hb, env, rng, quick, stats, where_dist):
         for img in enumerate_images(c, impl, r, every_byte=not quick, max_images=max_images):
             cfg = img["cfg"]
             later = r.choice([0, 0, 0, 1, 999, 5000, 3600000])
-            now = img["now"] + later
+            now = min(img["now"] + later, K.MAXMS - 1)        # the clock cannot pass the last representable instant
             ops = ["crashimg %d %d %d %d %s %s %s" % (cfg[0], cfg[1], cfg[2], now, img["files"][0], img["files"][1], img["files"][2]), "state"]
             cont = None
-            if r.chance(1, 3):
+            if r.chance(1, 3) or img["files"][2] != "none":
                 cont = True
             image_cases.append({"cat": "image", "ops": ops, "img": img, "now": now, "cont": cont, "keys": keys,
                                 "cfgd": {"maxCache": cfg[0], "maxLog": cfg[1], "inline": cfg[2], "now": now}, "history": c["ops"]})
@@ -394,12 +399,17 @@ def run_kv(ctx, hb, env, rng, quick, stats, where_dist):
             ref.m = dict(ic["img"]["old"].m)  # inline-compaction threshold, whose trace depends on the hash order): a superset of what can be recovered
             ref.m.update(ic["img"]["new"].m)
             more = K.gen_more(r, r.range(1, 5), ref, ic["keys"], ic["cfgd"], allow_reopen=True)
+            if ic["img"]["files"][2] != "none":
+                # a leftover (possibly torn) temp file: the next compaction must start its snapshot from scratch
+                more = ["compact"] + more
             ic["ops"] = ic["ops"] + more + ["reopen", "read - %s" % " ".join(hexs(k) for k in ic["keys"] if len(k) <= 64), "state"]
     # ---- pass 2: every image reopened by the real store and by the model's load
     res2 = ctx.lockstep("kv", hb, image_cases + [{"cat": "stats", "ops": ["stats"]}], impl_env=env, timeout=6000)
     for c, impl, model in res2:
         if c["cat"] == "stats":
-            ctx.extra["interposer_counts"] = dict(x.split("=") for x in impl[0].split()[1:]) if impl[0].startswith("stats ") else impl[0]
+            st = dict(x.split("=") for x in impl[0].split()[1:]) if impl[0].startswith("stats ") else {}
+            ctx.extra["interposer_counts"] = st or impl[0]
+            check_stats(ctx, st, crashed=any("crash" in cc for cc, _, _ in res2))
             continue
         img = c["img"]
         stats["images"] += 1
@@ -557,15 +567,20 @@ def run_malformed(ctx, hb, env, rng, quick, stats):
 
 
 def run_boundary(ctx, hb, env):
-    """Implementation-only: a value of exactly MAX_VALUE_LENGTH bytes (too large for the line protocol) must survive a restart,
-    and so must what was written after it."""
-    ops = ["reset 10 400000000 1 1000", "set 61 01", "bigvalue 62 104857600 7", "set 63 03", "read - 61 63", "reopen", "read - 61 63"]
-    out, rc, err = ctx.run_lines([hb], ops, timeout=600, env=env)
-    want = "size=3 keys=61,62,63 pfx=61,62,63 batch=61:01,63:03 ex=11 ttl=n,n"
+    """Implementation-only (values too large for the line protocol): values of exactly MAX_VALUE_LENGTH bytes, without and WITH a TTL,
+    must survive a restart through the log ('S' arm and 'E' arm of load()), and - after a compaction - through the snapshot; so must
+    what was written after them."""
+    ops = ["reset 1 400000000 1 1000", "set 61 01", "bigvalue 62 104857600 7", "bigvalue 64 104857600 9 3600", "set 63 03", "read - 61 63",
+           "reopen", "read - 61 63", "compact", "reopen", "read - 61 63"]
+    out, rc, err = ctx.run_lines([hb], ops, timeout=1200, env=env)
+    want = "size=4 keys=61,62,63,64 pfx=61,62,63,64 batch=61:01,63:03 ex=11 ttl=n,n"
     ctx.count_case("boundary-max-value", nontrivial=True)
-    if len(out) != len(ops) or out[4] != want or out[6] != want:
-        ctx.violation("property", "D1(boundary): a value of MAX_VALUE_LENGTH bytes (accepted by set) and the writes after it are not all there after close + reopen: before `%s` after `%s`"
-                      % (out[4] if len(out) > 4 else "?", out[6] if len(out) > 6 else "crash rc=%s" % rc),
+    got = [out[i] if len(out) > i else "crash rc=%s" % rc for i in (5, 7, 10)]
+    if got != [want] * 3:
+        where = ["before the restart", "after close + reopen (log replay: 'S' and 'E' arms)", "after compact + reopen (snapshot)"]
+        k = next(i for i in range(3) if got[i] != want)
+        ctx.violation("property", "D1(boundary): values of MAX_VALUE_LENGTH bytes (accepted by set, one with a TTL) and the writes after them are not all there %s: got `%s`"
+                      % (where[k], got[k][:160]),
                       {"ops": ops, "observed": out, "expected": want, "stderr": err[-500:]}, found_input=True)
 
 
@@ -578,23 +593,35 @@ def run_json(ctx, hj, env, rng, quick, stats):
         if h < len(fixed):
             ops = fixed[h]
         else:
-            keys = ["k%d" % i for i in range(r.range(1, 5))] + ["key with space", "q\"uote", "unié"]
+            keys = ["k%d" % i for i in range(r.range(1, 5))] + ["key with space", "q\"uote", "uni\u00e9", "back\\slash", "tab\there", "nl\nx", "\u0001ctl", "\U0001F600", "/slash", ""]
             ops = ["jreset"]
             for _ in range(r.range(2, 10)):
                 x = r.below(10)
                 if x < 5:
-                    ops.append("jset %s %s" % (hexs(r.choice(keys).encode()), hexs(("v%d" % r.below(1000)).encode() * r.range(0, 3))))
+                    val = r.choice(["v%d" % r.below(1000), "", "\"q\"", "\\", "\u00e9\U0001F600", "a\nb\tc", "\u007f\u0000x", "{\"not\":\"nested\"}"]) * r.range(0, 3)
+                    ops.append("jset %s %s" % (hexs(r.choice(keys).encode()), hexs(val.encode())))
                 elif x < 7:
                     ops.append("jremove %s" % hexs(r.choice(keys).encode()))
                 else:
                     ops += ["jdump", "jflush"]
-            ops += ["jdump", "jflush"]
+            ops += ["jdump", "jflush", "jreopen"]
         out, rc, err = ctx.run_lines([hj], ops, timeout=300, env=env)
         ctx.count_case("\n".join(ops), nontrivial=True)
         if rc != 0 or len(out) != len(ops):
             ctx.violation("property", "J1: the JSON file store harness died (rc=%s) on a set/remove/flush history: %s" % (rc, err[-200:]),
                           {"ops": ops, "observed": out}, found_input=True)
             continue
+        # "never empty or unreadable": after a clean close the document parses back to what was flushed (real parser, real dump)
+        for i, (op, l) in enumerate(zip(ops, out)):
+            if op == "jreopen":
+                last = [out[j] for j in range(i) if ops[j] == "jdump"][-1:]
+                try:
+                    same = bool(last) and json.loads(bytes.fromhex(l[4:]).decode()) == json.loads(bytes.fromhex(last[0][4:]).decode())
+                except Exception:
+                    same = False
+                if not same:
+                    ctx.violation("property", "J1: after flush + clean close the store reopens to `%s`, flushed `%s` (unreadable or different document)"
+                                  % (K.short(l, 120), K.short(last[0] if last else "?", 120)), {"ops": ops[:i + 1], "observed": out[:i + 1]}, found_input=True)
         # the file operations of every flush vs the model's saveToFile on the same text
         fs = K.PyFs()
         committed = None            # document of the last completed flush
@@ -631,6 +658,21 @@ def run_json(ctx, hj, env, rng, quick, stats):
                               % (K.short(impl_tr[k], 160), K.short(mout[k] if k < len(mout) else "?", 160)),
                               {"broken": {"correspondence": "jflush trace (harness/c11_jfs.cpp vs Model/JsonFileStore.lean)", "detail": "flush %d" % k},
                                "ops": ops, "observed": impl_tr, "expected_by_model": mout}, found_input=False)
+        # leftover (possibly torn) temp file from a crashed flush: the next flush must not build on it
+        lt = [(f, old, new, where) for f, old, new, where in images if f[2] != "none"]
+        r.shuffle(lt)
+        for f, old, new, where in lt[:4]:
+            cops = ["jimage %s %s" % (f[0], f[2]), "jset 6e6577 76616c", "jdump", "jflush", "jreopen"]
+            cout, crc_, cerr = ctx.run_lines([hj], cops, timeout=120, env=env)
+            stats["json_continuations"] = stats.get("json_continuations", 0) + 1
+            try:
+                ok = len(cout) == 5 and json.loads(bytes.fromhex(cout[4][4:]).decode()) == json.loads(bytes.fromhex(cout[2][4:]).decode())
+            except Exception:
+                ok = False
+            if not ok:
+                ctx.violation("property", "J1: after recovering from a crash image with a leftover temp file (%s), set + flush + clean reopen gives `%s`, flushed `%s`"
+                              % (where, K.short(cout[4] if len(cout) > 4 else "crash", 120), K.short(cout[2] if len(cout) > 2 else "?", 120)),
+                              {"ops": cops, "observed": cout, "crash_point": where}, found_input=True)
         # every image reopened by a fresh real JsonFileStore
         iops = ["jimage %s %s" % (f[0], f[2]) for f, _, _, _ in images]
         iout, rc, err = ctx.run_lines([hj], iops, timeout=600, env=env)
